@@ -38,6 +38,26 @@ var solvers = []solverSpec{
 
 func preludeFor(usedUF []string) string {
 	var b strings.Builder
+	wf := false
+	for _, n := range usedUF {
+		if n == "wfp" || n == "bnd" {
+			wf = true
+		}
+	}
+	if wf {
+		b.WriteString(wfDefs)
+		if len(usedUF) > 0 {
+			// both predicates must be declared before the axioms
+			need := map[string]bool{"wfp": true, "bnd": true}
+			for _, n := range usedUF {
+				delete(need, n)
+			}
+			for n := range need {
+				usedUF = append(usedUF, n)
+			}
+		}
+	}
+	defer func() {}()
 	for _, n := range usedUF {
 		d := ufDecls[n]
 		b.WriteString("(declare-fun " + n + " (")
@@ -48,6 +68,9 @@ func preludeFor(usedUF []string) string {
 			b.WriteString(a.String())
 		}
 		b.WriteString(") " + d.res.String() + ")\n")
+	}
+	if wf {
+		b.WriteString(wfPrelude)
 	}
 	return b.String()
 }
@@ -115,6 +138,9 @@ func solve(o *Obligation, dir string, timeout int, keep bool) *SolveResult {
 	ctx, cancel := context.WithCancel(context.Background())
 	defer cancel()
 	ch := make(chan ans, len(solvers))
+	if o.Goal == nil && timeout > 3 {
+		timeout = 3
+	}
 	launch := func(sp solverSpec) {
 		file := base + "." + sp.name + ".smt2"
 		os.WriteFile(file, []byte(sp.pre+q), 0o644)
